@@ -73,7 +73,9 @@ def _iterate(self, *a, **k):
             tot, mag = assemble_scaled(self)
             post = np.asarray(self.node_posterior)
             res = np.abs(tot - post)
-            if np.any(res > 1e-9 * np.maximum(mag, 1e-300) + 1e-300) or not np.all(np.isfinite(tot)):
+            bound = 1e-9 * np.maximum(mag, 1e-300) + 1e-300
+            bound[:, 0] += 1e-12
+            if np.any(res > bound) or not np.all(np.isfinite(tot)):
                 j = int(np.unravel_index(np.nanargmax(res / np.maximum(mag, 1e-300)), res.shape)[0])
                 st["viol"].append(("messages-do-not-sum-to-posterior:when-iteration-aborted",
                                    f"iteration {st['n'] + 1} raised {type(e).__name__}; at that moment messages x scale to node {j} "
@@ -90,6 +92,9 @@ def _iterate(self, *a, **k):
     post = np.asarray(self.node_posterior)
     res = np.abs(tot - post)
     bound = 1e-9 * np.maximum(mag, 1e-300)
+    # the first natural parameter is shape - 1: 1e-12 absolute there is 1e-12 relative in the shape
+    # (messages that cancel to exactly 0 leave residues like 2e-32 in one factor)
+    bound[:, 0] += 1e-12
     rel = float(np.max(res / np.maximum(mag, 1e-300))) if res.size else 0.0
     st["max_res"] = max(st["max_res"], rel)
     if np.any(res > bound) and len(st["viol"]) < 3:
